@@ -936,9 +936,6 @@ func (g *progGen) leaf() string {
 	}
 	p := rapid.SampledFrom(pool).Draw(g.t, "leaf")
 	g.used[p.Name] = true
-	for _, v := range []string{"strlong", "ints", "str"} { // spellings that mention other pool values: none today
-		_ = v
-	}
 	return p.spell()
 }
 
